@@ -67,7 +67,7 @@ def _box_size(proj, ranges):
 
 
 class Executor:
-    def __init__(self, einsums, bounds, comps, wl_bits, persistent=()):
+    def __init__(self, einsums, bounds, comps, wl_bits, persistent=(), n_instances=1):
         self.einsums = einsums
         self.bounds = bounds
         self.comps = comps
@@ -84,6 +84,7 @@ class Executor:
                     self.is_output[(e, t)] = True
         self.persistent = set(persistent)
         self.pending = []
+        self.n_instances = n_instances
 
     # -- helpers ------------------------------------------------------------
     def bpv(self, level, tensor):
@@ -186,7 +187,10 @@ class Executor:
             bits = nvals * self.bpv(level, t)
             # occupancy: a node directly above a split (no loop in between) holds its tile only
             # from the first to the last branch that uses the tensor; otherwise for its whole scope
-            deferred = self._directly_above_seq(nodes, i)
+            if n.get("persistent"):
+                # persistent tensors live throughout and are held once per workload instance
+                bits = bits * self.n_instances
+            deferred = self._directly_above_seq(nodes, i) and not n.get("persistent")
             if deferred:
                 leafs = self._leaf_seq(nodes, i + 1, ranges)
                 users = [j for j, e in enumerate(leafs) if (e, t) in self.proj]
